@@ -298,6 +298,11 @@ def evaluate(case):
         for k, ev in enumerate(events):
             if ev.call == "open" and not is_validation(k):
                 plan.append((k, "ENOENT", k + 1))
+        # a medium that goes bad: the read fails and so does whatever fclones asks next (e.g. a look whether the file
+        # is still there) - the entry still exists, so it is left out WITH a warning
+        for k, ev in enumerate(events):
+            if ev.call in ("read", "pread64", "mmap") and not is_validation(k) and k + 1 < len(events):
+                plan.append((k, "EIO", k + 1))
         if case["pairs"]:
             plan = [(k1, "EIO", k2) for k1 in range(len(events)) for k2 in range(k1 + 1, len(events))
                     if not is_validation(k1) and not is_validation(k2)]
